@@ -18,6 +18,7 @@ class Effects:
         self.src, self.reg = sources, reg
         self.by_name = None
         self.memo = {}
+        self.inline_here = set()
 
     def index(self):
         if self.by_name is not None:
@@ -50,7 +51,9 @@ class Effects:
                 c = self.reg.contracts.get(fi.fid)
                 if c is not None:
                     self._contract_mods(c, fields, ghosts)
-                    if c.assumed:
+                    # a callee applied by contract is represented by its `modifies` clause alone: the clause is trusted for
+                    # assumed contracts and checked by the frame obligations of the callee's own verification otherwise
+                    if c.assumed or fi.fid not in self.inline_here:
                         continue
                 if fi.fid not in self.memo:
                     f2, l2, g2, c2 = set(), set(), set(), set()
